@@ -132,7 +132,7 @@ Qed.
 
 (* the rewinder of abrm(balanced=True): av*a, conj(av)*b with |av|^2 = cos^2 + nz^2 sin^2 *)
 Definition abrm_rewind_k (pi eps x : R) : R :=
-  let om := x * (- 2 * pi / 2) in let phi := Rabs om + eps in
+  let om := x * (Ropp 2 * pi / 2) in let phi := Rabs om + eps in
   cos (phi / 2) * cos (phi / 2) + (om / phi) * (om / phi) * (sin (phi / 2) * sin (phi / 2)).
 
 Theorem abrm_norm pi eps (rf : list CR) x balanced :
@@ -146,7 +146,7 @@ Proof.
     rewrite <- INR_IZR_INZ. reflexivity. }
   destruct balanced; [|rewrite Hst; ring].
   rewrite <- Hst. unfold abrm_rewind_k, rcs, half, two. destruct st as [[ar ai] [br bi]].
-  cx_simpl. cbn [fofZ fabs RF]. unfold Rdiv. Show. ring.
+  cx_simpl. cbn [fofZ fabs RF]. unfold Rdiv. ring.
 Qed.
 
 (* abrm_nd: phi without eps, axis divided by (phi + eps): rho = phi/(phi+eps) *)
@@ -222,3 +222,221 @@ Proof.
   rewrite IH by (intros r' Hr'; apply H; right; exact Hr').
   rewrite abrm_k_eps0 by (apply H; left; reflexivity). ring.
 Qed.
+
+(* ------------------------------------------------------------------ hard-pulse pieces: abrm_hp, blochsim *)
+Lemma unit_phasor_norm (r : CR) : n2 (unit_phasor (F:=RF) r) = 1.
+Proof.
+  pose proof (sqrt_sqrt _ (q_nonneg r 0)) as Hq.
+  destruct r as [re im]. unfold unit_phasor. cx_simpl. cbn [fsqrt fis0 RF].
+  replace (re * re + im * im + 0 * 0) with (re * re + im * im) in Hq by ring.
+  unfold Ris0. destruct (Req_EM_T (sqrt (re * re + im * im)) 0) as [E | E].
+  - cbn [fst snd]. lra.
+  - cbn [fst snd]. set (m := sqrt (re * re + im * im)) in *.
+    transitivity ((re * re + im * im) * (/ m * / m)); [unfold Rdiv; ring|].
+    rewrite <- Hq. field. exact E.
+Qed.
+
+Lemma rf_rot_norm (r : CR) (s : StR) : nrm (rf_rot (F:=RF) rcs r s) = nrm s.
+Proof.
+  pose proof (unit_phasor_norm r) as Hu. unfold rf_rot, rcs, half, two.
+  set (u := unit_phasor r) in *. destruct u as [ur ui]. destruct s as [[ar ai] [br bi]].
+  set (t := fdiv (fsqrt (cabs2 r)) (fofZ 2)). pose proof (cs1 t) as Hcs.
+  cx_simpl. 
+  transitivity ((cos t * cos t + (ur * ur + ui * ui) * (sin t * sin t)) * (ar * ar + ai * ai + (br * br + bi * bi))).
+  - ring.
+  - rewrite Hu. replace (cos t * cos t + 1 * (sin t * sin t)) with 1 by lra. ring.
+Qed.
+
+Lemma grad_phase_norm theta (s : StR) : nrm (grad_phase (F:=RF) rcs theta s) = nrm s.
+Proof.
+  unfold grad_phase, rcs. pose proof (cs1 theta) as Hcs. destruct s as [[ar ai] [br bi]]. cx_simpl.
+  transitivity (ar * ar + ai * ai + (br * br + bi * bi) * (cos theta * cos theta + sin theta * sin theta)); [ring|].
+  rewrite Hcs. ring.
+Qed.
+
+Lemma total_phase_norm theta (s : StR) : nrm (total_phase (F:=RF) rcs theta s) = nrm s.
+Proof.
+  unfold total_phase, rcs. set (t := half theta). pose proof (cs1 t) as Hcs. destruct s as [[ar ai] [br bi]]. cx_simpl.
+  transitivity ((ar * ar + ai * ai + (br * br + bi * bi)) * (cos t * cos t + sin t * sin t)); [ring|].
+  rewrite Hcs. ring.
+Qed.
+
+Theorem abrm_hp_norm (rfg : list (CR * R)) x dom0dt : nrm (abrm_hp (F:=RF) rcs rfg x dom0dt) = 1.
+Proof.
+  unfold abrm_hp, abrm_hp_loop. rewrite total_phase_norm, fold_preserve; [apply nrm_st0|].
+  intros s rg. rewrite rf_rot_norm. apply grad_phase_norm.
+Qed.
+
+Theorem blochsim_norm (rfg : list (CR * list R)) x : nrm (blochsim (F:=RF) rcs rfg x) = 1.
+Proof.
+  unfold blochsim, blochsim_loop. rewrite total_phase_norm, fold_preserve; [apply nrm_st0|].
+  intros s rg. rewrite grad_phase_norm. apply rf_rot_norm.
+Qed.
+
+(* ------------------------------------------------------------------ abrm_ptx *)
+Lemma ptx_factor_norm dtgam (bxy : CR) bz : nrm (ptx_factor (F:=RF) rcs dtgam bxy bz) = 1.
+Proof.
+  pose proof (sqrt_sqrt _ (q_nonneg bxy bz)) as Hq.
+  destruct bxy as [bx by_]. unfold ptx_factor, rcs, half, two. cx_simpl. cbn [fsqrt fis0 fofZ RF].
+  set (sq := sqrt (bx * bx + by_ * by_ + bz * bz)) in *.
+  unfold Ris0. destruct (Req_EM_T (dtgam * sq) 0) as [E | E].
+  - rewrite E. replace (0 / 2) with 0 by field. rewrite cos_0, sin_0. cbn [fst snd]. ring.
+  - cbn [fst snd]. pose proof (cs1 (dtgam * sq / 2)) as Hcs.
+    assert (Hd : dtgam <> 0) by (intros H0; apply E; rewrite H0; ring).
+    assert (Hs : sq <> 0) by (intros H0; apply E; rewrite H0; ring).
+    set (nf := dtgam * (1 / (dtgam * sq))).
+    transitivity (cos (dtgam * sq / 2) * cos (dtgam * sq / 2) +
+                  nf * nf * (bx * bx + by_ * by_ + bz * bz) * (sin (dtgam * sq / 2) * sin (dtgam * sq / 2))); [ring|].
+    rewrite <- Hq. replace (nf * nf * (sq * sq)) with 1 by (unfold nf; field; split; assumption). lra.
+Qed.
+
+Theorem abrm_ptx_norm dtgam boff (sens : list CR) x (b1g : list (list CR * list R)) :
+  nrm (abrm_ptx (F:=RF) rcs dtgam boff sens x b1g) = 1.
+Proof.
+  unfold abrm_ptx. rewrite ptx_out_norm, fold_preserve; [apply nrm_st0|].
+  intros s bg. rewrite ptx_step_norm, ptx_factor_norm. ring.
+Qed.
+
+(* ------------------------------------------------------------------ composition: ordered product of SU(2)-form factors *)
+Lemma pair_eq {A B} (a c : A) (b d : B) : a = c -> b = d -> (a, b) = (c, d).
+Proof. intros -> ->. reflexivity. Qed.
+Lemma pair_eqR (a c b d : R) : a = c -> b = d -> (a, b) = (c, d).
+Proof. intros -> ->. reflexivity. Qed.
+Ltac cx_eq := repeat (first [apply pair_eqR | apply pair_eq]); try ring.
+
+Lemma su2_step_assoc (m p : CR * CR) (s : StR) : su2_step m (su2_step p s) = su2_step (su2_step m p) s.
+Proof.
+  destruct m as [[m1 m2] [m3 m4]], p as [[p1 p2] [p3 p4]], s as [[s1 s2] [s3 s4]]. cx_simpl. cx_eq.
+Qed.
+Lemma su2_step_st0 (m : CR * CR) : su2_step m st0 = m.
+Proof. destruct m as [[m1 m2] [m3 m4]]. cx_simpl. cx_eq. Qed.
+
+Lemma su2_run_as_matrix (l : list (CR * CR)) (s : StR) : su2_run l s = su2_step (su2_run l st0) s.
+Proof.
+  revert s. induction l as [|m l IH]; intros s.
+  - cbn [su2_run fold_left]. destruct s as [[s1 s2] [s3 s4]]. cx_simpl. cx_eq.
+  - unfold su2_run in *. cbn [fold_left]. rewrite (IH (su2_step m s)), (IH (su2_step m st0)).
+    rewrite su2_step_st0. apply su2_step_assoc.
+Qed.
+
+Theorem su2_run_compose (l1 l2 : list (CR * CR)) :
+  su2_run (l1 ++ l2) st0 = su2_step (su2_run l2 st0) (su2_run l1 st0).
+Proof. unfold su2_run at 1. rewrite fold_left_app. apply su2_run_as_matrix. Qed.
+
+Theorem abrm_nd_compose eps (w1 w2 : list (CR * list R)) x :
+  abrm_nd (F:=RF) rcs eps (w1 ++ w2) x = su2_step (abrm_nd (F:=RF) rcs eps w2 x) (abrm_nd (F:=RF) rcs eps w1 x).
+Proof. unfold abrm_nd. rewrite map_app. apply su2_run_compose. Qed.
+
+Theorem abrm_loop_compose eps om (w1 w2 : list CR) :
+  abrm_loop (F:=RF) rcs eps om (w1 ++ w2) st0 =
+  su2_step (abrm_loop (F:=RF) rcs eps om w2 st0) (abrm_loop (F:=RF) rcs eps om w1 st0).
+Proof. unfold abrm_loop. rewrite map_app. apply su2_run_compose. Qed.
+
+(* abrm_hp / blochsim / abrm_ptx run sample after sample on the state: the loop over w1 ++ w2 is the loop over w2
+   started from the state left by w1 (the closing total_phase / output map is applied once at the end) *)
+Theorem abrm_hp_loop_app x d (w1 w2 : list (CR * R)) s :
+  abrm_hp_loop (F:=RF) rcs x d (w1 ++ w2) s = abrm_hp_loop (F:=RF) rcs x d w2 (abrm_hp_loop (F:=RF) rcs x d w1 s).
+Proof. unfold abrm_hp_loop. apply fold_left_app. Qed.
+Theorem blochsim_loop_app x (w1 w2 : list (CR * list R)) s :
+  blochsim_loop (F:=RF) rcs x (w1 ++ w2) s = blochsim_loop (F:=RF) rcs x w2 (blochsim_loop (F:=RF) rcs x w1 s).
+Proof. unfold blochsim_loop. apply fold_left_app. Qed.
+
+(* ------------------------------------------------------------------ zero RF => b = 0 *)
+Lemma fold_inv {A} (P : StR -> Prop) (f : StR -> A -> StR) (l : list A) :
+  (forall s m, In m l -> P s -> P (f s m)) -> forall s, P s -> P (fold_left f l s).
+Proof.
+  induction l as [|m l IH]; intros H s Hs; [exact Hs|]. cbn [fold_left].
+  apply IH; [intros s' m' Hm; apply H; right; exact Hm | apply H; [left; reflexivity | exact Hs]].
+Qed.
+
+Lemma su2_step_b0 (av a : CR) : snd (su2_step (av, c0) (a, c0)) = c0.
+Proof. destruct av as [a1 a2], a as [x1 x2]. cx_simpl. cx_eq. Qed.
+
+Lemma abrm_factor_zero eps om : snd (abrm_factor (F:=RF) rcs eps om c0) = c0.
+Proof. unfold abrm_factor, rcs. cx_simpl. unfold Rdiv. cx_eq. Qed.
+Lemma abrm_nd_factor_zero eps x g : snd (abrm_nd_factor (F:=RF) rcs eps x (c0, g)) = c0.
+Proof. unfold abrm_nd_factor, rcs. cx_simpl. unfold Rdiv. cx_eq. Qed.
+
+Lemma su2_run_b0 (l : list (CR * CR)) (s : StR) :
+  (forall m, In m l -> snd m = c0) -> snd s = c0 -> snd (su2_run l s) = c0.
+Proof.
+  intros H Hs. unfold su2_run. apply (fold_inv (fun s => snd s = c0)); [|exact Hs].
+  intros [a b] [av bv] Hm Hb. cbn [snd] in Hb. apply H in Hm. cbn [snd] in Hm. subst b bv. apply su2_step_b0.
+Qed.
+
+Theorem abrm_zero_rf pi eps (rf : list CR) x balanced :
+  (forall r, In r rf -> r = c0) -> snd (abrm (F:=RF) rcs pi eps rf x balanced) = c0.
+Proof.
+  intros H. unfold abrm. set (st := abrm_loop _ _ _ _ _).
+  assert (Hst : snd st = c0).
+  { unfold st, abrm_loop. apply su2_run_b0; [|reflexivity].
+    intros m Hm. apply in_map_iff in Hm. destruct Hm as [r [<- Hr]]. rewrite (H r Hr). apply abrm_factor_zero. }
+  destruct balanced; [|exact Hst].
+  unfold rcs. destruct st as [a b]. cbn [snd fst] in *. subst b. cx_simpl. cx_eq.
+Qed.
+
+Theorem abrm_nd_zero_rf eps (rfg : list (CR * list R)) x :
+  (forall rg, In rg rfg -> fst rg = c0) -> snd (abrm_nd (F:=RF) rcs eps rfg x) = c0.
+Proof.
+  intros H. unfold abrm_nd. apply su2_run_b0; [|reflexivity].
+  intros m Hm. apply in_map_iff in Hm. destruct Hm as [[r g] [<- Hr]]. apply H in Hr. cbn [fst] in Hr. subst r.
+  apply abrm_nd_factor_zero.
+Qed.
+
+Lemma rf_rot_zero (s : StR) : rf_rot (F:=RF) rcs c0 s = s.
+Proof.
+  destruct s as [[ar ai] [br bi]]. unfold rf_rot, unit_phasor, rcs, half, two. cx_simpl. cbn [fsqrt fis0 fofZ RF].
+  replace (0 * 0 + 0 * 0) with 0 by ring. rewrite sqrt_0. replace (0 / 2) with 0 by field. rewrite cos_0, sin_0.
+  unfold Ris0. destruct (Req_EM_T 0 0) as [_ | E]; [|exfalso; apply E; reflexivity].
+  cbn [fst snd]. cx_eq.
+Qed.
+Lemma grad_phase_b0 theta (a : CR) : snd (grad_phase (F:=RF) rcs theta (a, c0)) = c0.
+Proof. unfold grad_phase, rcs. cx_simpl. cx_eq. Qed.
+Lemma total_phase_b0 theta (a : CR) : snd (total_phase (F:=RF) rcs theta (a, c0)) = c0.
+Proof. unfold total_phase, rcs. cx_simpl. cx_eq. Qed.
+
+Theorem abrm_hp_zero_rf (rfg : list (CR * R)) x d :
+  (forall rg, In rg rfg -> fst rg = c0) -> snd (abrm_hp (F:=RF) rcs rfg x d) = c0.
+Proof.
+  intros H. unfold abrm_hp. set (st := abrm_hp_loop _ _ _ _ _).
+  assert (Hst : snd st = c0).
+  { unfold st, abrm_hp_loop. apply (fold_inv (fun s => snd s = c0)); [|reflexivity].
+    intros [a b] [r g] Hm Hb. apply H in Hm. cbn [fst snd] in *. subst b r. rewrite rf_rot_zero. apply grad_phase_b0. }
+  destruct st as [a b]. cbn [snd] in Hst. subst b. apply total_phase_b0.
+Qed.
+
+Theorem blochsim_zero_rf (rfg : list (CR * list R)) x :
+  (forall rg, In rg rfg -> fst rg = c0) -> snd (blochsim (F:=RF) rcs rfg x) = c0.
+Proof.
+  intros H. unfold blochsim. set (st := blochsim_loop _ _ _ _).
+  assert (Hst : snd st = c0).
+  { unfold st, blochsim_loop. apply (fold_inv (fun s => snd s = c0)); [|reflexivity].
+    intros [a b] [r g] Hm Hb. apply H in Hm. cbn [fst snd] in *. subst b r. rewrite rf_rot_zero. apply grad_phase_b0. }
+  destruct st as [a b]. cbn [snd] in Hst. subst b. apply total_phase_b0.
+Qed.
+
+(* zero RF and unit norm: a is a pure phase *)
+Corollary abrm_hp_zero_rf_phase (rfg : list (CR * R)) x d :
+  (forall rg, In rg rfg -> fst rg = c0) -> n2 (fst (abrm_hp (F:=RF) rcs rfg x d)) = 1.
+Proof.
+  intros H. pose proof (abrm_hp_norm rfg x d) as Hn. pose proof (abrm_hp_zero_rf rfg x d H) as Hb.
+  unfold nrm in Hn. rewrite Hb in Hn. unfold n2 at 2 in Hn. unfold c0 in Hn. cbn [fst snd f0 RF] in Hn. lra.
+Qed.
+Corollary blochsim_zero_rf_phase (rfg : list (CR * list R)) x :
+  (forall rg, In rg rfg -> fst rg = c0) -> n2 (fst (blochsim (F:=RF) rcs rfg x)) = 1.
+Proof.
+  intros H. pose proof (blochsim_norm rfg x) as Hn. pose proof (blochsim_zero_rf rfg x H) as Hb.
+  unfold nrm in Hn. rewrite Hb in Hn. unfold n2 at 2 in Hn. unfold c0 in Hn. cbn [fst snd f0 RF] in Hn. lra.
+Qed.
+
+Lemma eps_example : 0 < 1e-16.
+Proof. lra. Qed.
+
+Lemma abrm_hp_zero_rf_full (rfg : list (CR * R)) x d :
+  (forall rg, In rg rfg -> fst rg = c0) ->
+  snd (abrm_hp (F:=RF) rcs rfg x d) = c0 /\ n2 (fst (abrm_hp (F:=RF) rcs rfg x d)) = 1.
+Proof. intros H. split; [exact (abrm_hp_zero_rf rfg x d H) | exact (abrm_hp_zero_rf_phase rfg x d H)]. Qed.
+Lemma blochsim_zero_rf_full (rfg : list (CR * list R)) x :
+  (forall rg, In rg rfg -> fst rg = c0) ->
+  snd (blochsim (F:=RF) rcs rfg x) = c0 /\ n2 (fst (blochsim (F:=RF) rcs rfg x)) = 1.
+Proof. intros H. split; [exact (blochsim_zero_rf rfg x H) | exact (blochsim_zero_rf_phase rfg x H)]. Qed.
